@@ -236,7 +236,7 @@ bitio_fam!(c02_bitio_w2_27_26, quick, 6, false, 2, 27, 26);
 zv_harness! {
     name: c02_bitio_wsym,
     prop: "C02",
-    tier: thorough,
+    tier: probe,
     unwind: 6,
     stubs: [alloc::fmt::format => crate::common::stubs::fmt_format],
     targets: "BitWriter::{new,write_bits,bits_written,finish}, BitReader::{new,read_bits,bit_position,has_bits}",
@@ -343,14 +343,14 @@ macro_rules! seq2_fam {
         }
     };
 }
-seq1_fam!(c02_matches_seq1_far2long_v8, thorough, 3, 6, 2);
-seq1_fam!(c02_matches_seq1_global_len, thorough, 5, 1, 1);
-seq1_fam!(c02_matches_seq1_literal, thorough, 5, 0, 0);
-seq1_fam!(c02_matches_seq1_global, thorough, 5, 1, 0);
-seq1_fam!(c02_matches_seq1_far2long, thorough, 5, 6, 0);
-seq2_fam!(c02_matches_seq2_rle_far1short, thorough, 5, 2, 4);
-seq2_fam!(c02_matches_seq2_nearshort_far2short, thorough, 5, 3, 5);
-seq2_fam!(c02_matches_seq2_global_far2long, thorough, 5, 1, 6);
+seq1_fam!(c02_matches_seq1_far2long_v8, probe, 3, 6, 2);
+seq1_fam!(c02_matches_seq1_global_len, probe, 5, 1, 1);
+seq1_fam!(c02_matches_seq1_literal, probe, 5, 0, 0);
+seq1_fam!(c02_matches_seq1_global, probe, 5, 1, 0);
+seq1_fam!(c02_matches_seq1_far2long, probe, 5, 6, 0);
+seq2_fam!(c02_matches_seq2_rle_far1short, probe, 5, 2, 4);
+seq2_fam!(c02_matches_seq2_nearshort_far2short, probe, 5, 3, 5);
+seq2_fam!(c02_matches_seq2_global_far2long, probe, 5, 1, 6);
 
 // ----------------------------------------------------------------------------- compressor layer
 use zipora::compression::{Compressor, HybridCompressor};
@@ -395,7 +395,7 @@ fn hybrid_n1() {
 zv_harness! {
     name: c02_hybrid_n1,
     prop: "C02",
-    tier: thorough,
+    tier: probe,
     unwind: 4100,
     stubs: [alloc::fmt::format => crate::common::stubs::fmt_format,
             std::hash::RandomState::new => crate::c02_compress::random_state_fixed],
@@ -460,7 +460,7 @@ fn seq1_global_image() {
 zv_harness! {
     name: c02_matches_seq1_global_image,
     prop: "C02",
-    tier: thorough,
+    tier: probe,
     unwind: 8,
     stubs: [alloc::fmt::format => crate::common::stubs::fmt_format],
     targets: "encode_matches, decode_matches (has_bits loop over trailing pad bits), encode_match, decode_match, BitWriter, BitReader",
